@@ -180,6 +180,7 @@ class Models:
         R(r"^core::bool::<impl bool>::(then|then_some)$", m_bool_then, "bool::then(f) / then_some(v): Some(f()) / Some(v) when true, None when false")
         R(r"impl core::ops::range::Range<Idx>>::contains$|^core::ops::range::Range::<Idx>::contains$", m_range_contains, "Range::contains(&x): start <= x && x < end")
         R(r"as core::ops::try_trait::FromResidual<.*>>::from_residual$", m_from_residual, "Result::from_residual(Err(e)) = Err(From::from(e))")
+        R(r"^<alloc::borrow::Cow<'_, T> as core::convert::AsRef<T>>::as_ref$", m_cow_deref, "Cow::as_ref borrows the contained data unchanged (like deref)")
         R(r"^<alloc::borrow::Cow<'_, B> as core::ops::deref::Deref>::deref$", m_cow_deref, "Cow::deref borrows the contained data unchanged")
         R(r"^<alloc::vec::Vec<T, A> as core::ops::deref::Deref(Mut)?>::deref(_mut)?$|^alloc::vec::Vec::<T, A>::as_(mut_)?slice$", m_vec_deref, "Vec derefs to the slice of its elements")
         R(r"^alloc::borrow::Cow::<'_, B>::to_mut$", m_cow_to_mut, "Cow::to_mut: clones borrowed data into an owned value once, returns &mut to the owned data (same contents)")
@@ -253,6 +254,7 @@ class Models:
         R(r"as core::iter::traits::iterator::Iterator>::(try_for_each|try_fold)$|^core::iter::traits::iterator::Iterator::(try_for_each|try_fold)$", m_try_iter, "Iterator::try_fold / try_for_each: the closure on each item in order, stopping at the first Err / None / Break, which is returned")
         R(r"^core::result::Result::<T, E>::inspect$|^core::option::Option::<T>::inspect$", m_inspect, "Result/Option::inspect(f): f(&value) on Ok / Some, then the value itself unchanged")
         R(r"^core::option::Option::<T>::filter$", m_opt_filter, "Option::filter(p): Some(x) if p(&x) else None")
+        R(r"^core::option::Option::<T>::as_ref$", m_opt_as_ref, "Option::as_ref: Some(&x) for Some(x), None for None")
         R(r"^core::hint::must_use$", lambda ci: ci.args[0], "hint::must_use is the identity")
         R(r"^log::max_level$", lambda ci: ("loglevel",), "log::max_level(): the global maximum level (analysed at both extremes)")
         R(r"^core::cmp::PartialOrd::le$", m_le, "PartialOrd::le; Level <= max_level decided by the engine's log setting")
@@ -1171,6 +1173,21 @@ def m_fold(ci):
     return ("app", "fold", (ci.args[0], ci.args[1], ci.args[2]))
 
 
+def m_opt_as_ref(ci):
+    a = ci.args[0]
+    x = ci.deref(a) if a[0] == "ref" else a
+    ev = ci.ev
+    if x[0] == "adt":
+        if x[3] == "None":
+            return none(ev)
+        if a[0] == "ref":
+            tgt = a[1]
+            return some(ev, ("ref", tgt[:-1] + (tgt[-1] + (("downcast", 1, "Some"), ("field", 0, "?")),), False))
+        return some(ev, ("ref", ("val", x[4][0], ()), False))
+    d = ("discr", x)
+    return ("fork", [([(d, 1)], some(ev, ("ref", ("val", ("unwrap", x), ()), False))), ([(d, 0)], none(ev))])
+
+
 def m_inspect(ci):
     x, f = ci.args
     good = ("Ok", "Some")
@@ -1260,6 +1277,8 @@ def concrete_items(ci, it):
         if v[0] == "bytes":
             return [("ref", ("val", mk_int(b, "u8"), ()), False) for b in v[1]]
         return None
+    if it[0] == "iter" and it[1] == "array" and it[2][0] in ("array", "bytes"):
+        return [mk_int(x, "u8") if isinstance(x, int) else x for x in it[2][1]]
     if it[0] == "iter" and it[1] == "copied":
         base = concrete_items(ci, it[2])
         if base is None:
